@@ -320,7 +320,8 @@ def gen_c06(tier: str, rng: random.Random) -> Iterator[Dict[str, Any]]:
         for timing in ("after-response", "during-response", "same-segment"):
             rq1: Dict[str, Any] = {"rid": 1, "method": method, "target": "/u%d" % ui, "headers": [["host", "hypercorn"]] + upg}
             if body:
-                rq1["body"] = {"framing": "cl", "len": 5}
+                # announced by content-length or by transfer-encoding alone
+                rq1["body"] = {"framing": "cl", "len": 5} if ui % 2 else {"framing": "chunked", "len": 5, "chunks": [2, 3]}
             reqs = [rq1, {"rid": 2, "method": "GET", "target": "/next"}]
             resp = build.simple_resp_program(chunks=[3])
             apps = {"1": ([["gate"]] if timing == "during-response" else []) + resp, "2": build.simple_resp_program(chunks=[2])}
@@ -358,6 +359,8 @@ def gated_app(ops: List[Any], end: str = "disc") -> List[Any]:
         prog.append(["return"])
     elif end == "raise":
         prog.append(["raise"])
+    elif end == "raise_group":
+        prog.append(["raise_group"])
     elif end == "cancel":
         prog.append(["cancel"])
     return prog
@@ -399,6 +402,8 @@ def gen_faults(tier: str, rng: random.Random, focus: str = "c03") -> Iterator[Di
     scenarios.append(([{"rid": 1, "method": "GET", "target": "/g"}], [5], True))
     scenarios.append(([{"rid": 1, "method": "POST", "target": "/p1", "body": {"framing": "chunked", "len": 6, "chunks": [2, 4]}},
                        {"rid": 2, "method": "GET", "target": "/p2"}], [2, 2], True))
+    # the last message carries no data: the only thing written for it is the end of the response
+    scenarios.append(([{"rid": 1, "method": "GET", "target": "/e"}], [3, 0], False))
     if tier == "thorough":
         scenarios.append(([{"rid": 1, "method": "GET", "target": "/h", "version": "1.0"}], [4, 4], False))
         scenarios.append(([{"rid": 1, "method": "HEAD", "target": "/h"}], [4], True))
@@ -409,6 +414,8 @@ def gen_faults(tier: str, rng: random.Random, focus: str = "c03") -> Iterator[Di
             ends.append(("return", cut))
             ends.append(("raise", cut))
             ends.append(("cancel", cut))
+            if focus == "c05":
+                ends.append(("raise_group", cut))
         for end, cut in ends:
             if tier == "quick" and end != "disc" and focus == "c07" and cut not in (0, nops):
                 continue
